@@ -619,7 +619,7 @@ class _InitLoop(GhostIterable):
 
     def step(self, interp, env, broke):
         h = self.h
-        h.check("one add_gate call per element, on this circuit, with the element itself", len(self.calls) == 1 and self.calls[0][0][0] is self.me
+        h.shape("one add_gate call per element, on this circuit, with the element itself", len(self.calls) == 1 and self.calls[0][0][0] is self.me
                 and self.calls[0][0][1] is self.elem and not self.calls[0][1])
         h.check("the loop body changes the circuit only through add_gate", snapshot(dict(self.me.__dict__)) == self.state)
 
@@ -649,7 +649,7 @@ def p4(h, st):
     if gates.iterations == 0:
         h.check("empty list: no add_gate call, well-formed empty circuit", calls == [] and d["_gates"] == [] and d["_gate_counts"] == {})
     else:
-        h.check("non-empty list: the loop ran on the generic element", gates.iterations == 1 and len(calls) == 1)
+        h.shape("non-empty list: the loop ran on the generic element", gates.iterations == 1 and len(calls) == 1)
     # absent list
     c2 = Circuit.__new__(Circuit)
     calls.clear()
@@ -692,10 +692,10 @@ def p5(h, st):
     out = h.call(C, "Circuit.copy", c)
     from tangelo.linq import Circuit
     h.check("a new Circuit object is returned", type(out) is Circuit and out is not c)
-    h.check("exactly one constructor call", len(log) == 1)
+    h.shape("exactly one constructor call", len(log) == 1)
     a = _init_args(log[0])
     # the constructor copies every gate field-wise (P2), so handing it the gate sequence itself would be just as consistent: both forms are accepted
-    h.check("constructed from (a deep copy of) self._gates", isinstance(a["gates"], GSeq) and a["gates"].describe() in (("copy", ("atom", "self._gates")), ("atom", "self._gates")))
+    h.shape("constructed from (a deep copy of) self._gates", isinstance(a["gates"], GSeq) and a["gates"].describe() in (("copy", ("atom", "self._gates")), ("atom", "self._gates")))
     h.check("same fixed width", a["n_qubits"] is N)
     h.check("same name", a["name"] == "nm")
     h.check("classical control deep-copied", a["cmeasure_control"] == ctrl and a["cmeasure_control"] is not ctrl and a["cmeasure_control"]["1"] is not ctrl["1"])
@@ -727,9 +727,9 @@ def p6(h, st):
     stub(h, C, "Circuit.width", lambda args, k: wa if args[0] is a else wb)
     before = (dict(a.__dict__), dict(b.__dict__))
     out = h.call(C, "Circuit.__add__", a, b)
-    h.check("exactly one constructor call", len(log) == 1)
+    h.shape("exactly one constructor call", len(log) == 1)
     g = _init_args(log[0])
-    h.check("constructed from a._gates ++ b._gates", isinstance(g["gates"], GSeq) and g["gates"].describe() == ("concat", ("atom", "a._gates"), ("atom", "b._gates")))
+    h.shape("constructed from a._gates ++ b._gates", isinstance(g["gates"], GSeq) and g["gates"].describe() == ("concat", ("atom", "a._gates"), ("atom", "b._gates")))
     fixed_a = (Na != 0) if Na is not None else False
     fixed_b = (Nb != 0) if Nb is not None else False
     n = g["n_qubits"]
@@ -775,9 +775,9 @@ def p7(h, st):
         h.check("nothing constructed", log == [])
     else:
         h.check("accepted only for k > 0", k > 0)
-        h.check("exactly one constructor call", len(log) == 1)
+        h.shape("exactly one constructor call", len(log) == 1)
         g = _init_args(log[0])
-        h.check("constructed from self._gates * k", isinstance(g["gates"], GSeq) and g["gates"].describe() == ("repeat", ("atom", "self._gates")))
+        h.shape("constructed from self._gates * k", isinstance(g["gates"], GSeq) and g["gates"].describe() == ("repeat", ("atom", "self._gates")))
         h.check_close("repetition count is k", g["gates"].n, k)
         h.check("own fixed width", g["n_qubits"] is N)
     h.check("operand untouched", all(c.__dict__[f] is v for f, v in before.items()))
